@@ -28,58 +28,75 @@ Definition det2 (p0 p1 p2 : R) := p0 * p2 - p1 * p1.
 Definition det3 (p0 p1 p2 p3 p4 : R) :=
   p0 * (p2 * p4 - p3 * p3) + p1 * (p2 * p3 - p1 * p4) + p2 * (p1 * p3 - p2 * p2).
 
+(* The proofs below do not depend on how the source spells its formulas:
+   whatever expression d the code compares with 0, it is shown equal to the
+   determinant by `ring`, and the returned entries are compared by `field`. *)
+Ltac ops := cbn [Rops f0 f1 fadd fsub fmul fdiv fopp feqb].
+
+Ltac split_on_det H :=
+  match goal with
+  | |- context [Reqb ?d 0] =>
+    let E := fresh "E" in
+    destruct (Reqb d 0) eqn:E;
+    [ exfalso; apply H; apply Reqb_eq in E;
+      (transitivity d; [unfold det2, det3; ring | exact E]) | ]
+  end.
+
+Ltac field_det H :=
+  field; let Hc := fresh "Hc" in
+  intro Hc; apply H;
+  match type of Hc with ?e = 0 => transitivity e; [unfold det2, det3; ring | exact Hc] end.
+
 Lemma inv2_value p0 p1 p2 : det2 p0 p1 p2 <> 0 ->
-  inv2R p0 p1 p2 = mscale Rmult (1 / det2 p0 p1 p2) [[p2; - p1]; [- p1; p0]].
-Proof. intros H. unfold inv2R, inv2; cbn [Rops f0 f1 fadd fsub fmul fdiv fopp feqb]. fold (det2 p0 p1 p2). rewrite Reqb_false by exact H. reflexivity. Qed.
+  inv2R p0 p1 p2 =
+  [[p2 / det2 p0 p1 p2; - p1 / det2 p0 p1 p2]; [- p1 / det2 p0 p1 p2; p0 / det2 p0 p1 p2]].
+Proof.
+  intros H. unfold inv2R, inv2. ops. split_on_det H.
+  cbv [mscale map]. unfold det2 in *.
+  repeat (f_equal; try (field_det H)).
+Qed.
+
+Lemma inv3_value p0 p1 p2 p3 p4 : det3 p0 p1 p2 p3 p4 <> 0 ->
+  inv3R p0 p1 p2 p3 p4 =
+  let d := det3 p0 p1 p2 p3 p4 in
+  [[(p2 * p4 - p3 * p3) / d; (p2 * p3 - p1 * p4) / d; (p1 * p3 - p2 * p2) / d];
+   [(p2 * p3 - p1 * p4) / d; (p0 * p4 - p2 * p2) / d; (p1 * p2 - p0 * p3) / d];
+   [(p1 * p3 - p2 * p2) / d; (p1 * p2 - p0 * p3) / d; (p0 * p2 - p1 * p1) / d]].
+Proof.
+  intros H. unfold inv3R, inv3. ops. split_on_det H.
+  cbv [mscale map]. cbv zeta. unfold det3 in *.
+  repeat (f_equal; try (field_det H)).
+Qed.
 
 Theorem inv2_correct p0 p1 p2 : det2 p0 p1 p2 <> 0 ->
   matmulR (inv2R p0 p1 p2) (hankelR 2 [p0; p1; p2]) 2 = identR 2 /\
   matmulR (hankelR 2 [p0; p1; p2]) (inv2R p0 p1 p2) 2 = identR 2.
 Proof.
   intros H. rewrite inv2_value by exact H. unfold det2 in *.
-  split; cbv [matmulR matmul identR ident hankelR hankel mscale dot mcol map seq combine fold_left
+  split; cbv [matmulR matmul identR ident hankelR hankel dot mcol map seq combine fold_left
               nth fst snd Nat.eqb Nat.add];
     repeat (f_equal; try (field; exact H)).
-Qed.
-
-Lemma inv3_value p0 p1 p2 p3 p4 : det3 p0 p1 p2 p3 p4 <> 0 ->
-  inv3R p0 p1 p2 p3 p4 =
-  mscale Rmult (1 / det3 p0 p1 p2 p3 p4)
-    [[p2 * p4 - p3 * p3; p2 * p3 - p1 * p4; p1 * p3 - p2 * p2];
-     [p2 * p3 - p1 * p4; p0 * p4 - p2 * p2; p1 * p2 - p0 * p3];
-     [p1 * p3 - p2 * p2; p1 * p2 - p0 * p3; p0 * p2 - p1 * p1]].
-Proof.
-  intros H. unfold inv3R, inv3; cbn [Rops f0 f1 fadd fsub fmul fdiv fopp feqb]. fold (det3 p0 p1 p2 p3 p4). rewrite Reqb_false by exact H. reflexivity.
 Qed.
 
 Theorem inv3_correct p0 p1 p2 p3 p4 : det3 p0 p1 p2 p3 p4 <> 0 ->
   matmulR (inv3R p0 p1 p2 p3 p4) (hankelR 3 [p0; p1; p2; p3; p4]) 3 = identR 3 /\
   matmulR (hankelR 3 [p0; p1; p2; p3; p4]) (inv3R p0 p1 p2 p3 p4) 3 = identR 3.
 Proof.
-  intros H. rewrite inv3_value by exact H. unfold det3 in *.
-  split; cbv [matmulR matmul identR ident hankelR hankel mscale dot mcol map seq combine fold_left
+  intros H. rewrite inv3_value by exact H. cbv zeta. unfold det3 in *.
+  split; cbv [matmulR matmul identR ident hankelR hankel dot mcol map seq combine fold_left
               nth fst snd Nat.eqb Nat.add];
     repeat (f_equal; try (field; exact H)).
 Qed.
 
-(* singular branches: the code returns the inverse of the largest leading
-   block it can invert, padded with zeros *)
+(* singular 2x2 branch: the inverse of the 1x1 leading block, padded with zeros *)
 Lemma inv2_singular p0 p1 p2 : det2 p0 p1 p2 = 0 ->
   inv2R p0 p1 p2 = if Reqb p0 0 then [[0; 0]; [0; 0]] else [[1 / p0; 0]; [0; 0]].
 Proof.
-  intros H. unfold inv2R, inv2; cbn [Rops f0 f1 fadd fsub fmul fdiv fopp feqb]. fold (det2 p0 p1 p2). rewrite H, Reqb_true.
-  destruct (Reqb p0 0); reflexivity.
-Qed.
-
-Lemma inv3_singular p0 p1 p2 p3 p4 : det3 p0 p1 p2 p3 p4 = 0 ->
-  inv3R p0 p1 p2 p3 p4 =
-  match inv2R p0 p1 p2 with
-  | [[a; b]; [c; d]] => [[a; b; 0]; [c; d; 0]; [0; 0; 0]]
-  | _ => []
-  end.
-Proof.
-  intros H. unfold inv3R, inv3; cbn [Rops f0 f1 fadd fsub fmul fdiv fopp feqb]. fold (det3 p0 p1 p2 p3 p4). rewrite H, Reqb_true.
-  fold inv2R. unfold inv2R, inv2; cbn [Rops f0 f1 fadd fsub fmul fdiv fopp feqb]. destruct (Reqb (p0 * p2 - p1 * p1) 0).
-  - destruct (negb (Reqb p0 0)); reflexivity.
-  - reflexivity.
+  intros H. unfold inv2R, inv2. ops.
+  match goal with |- context [Reqb ?d 0] => destruct (Reqb d 0) eqn:E end.
+  - destruct (Reqb p0 0); reflexivity.
+  - exfalso. unfold Reqb in E.
+    match type of E with (if Req_EM_T ?d 0 then _ else _) = _ =>
+      destruct (Req_EM_T d 0) as [|Hn]; [discriminate|];
+      apply Hn; transitivity (det2 p0 p1 p2); [unfold det2; ring | exact H] end.
 Qed.
